@@ -328,5 +328,9 @@ void CDNS::CdnsDecoder::read_to_buffer()
         m_input.read(reinterpret_cast<char*>(m_buffer), BUFFER_SIZE);
         m_p = m_buffer;
         m_end = m_buffer + m_input.gcount();
+
+        // Nothing was read (empty input, input length is a multiple of the buffer size, unreadable stream)
+        if (m_p == m_end)
+            throw CdnsDecoderEnd("End of input stream");
     }
 }
